@@ -42,6 +42,19 @@ def check(run):
         seqs.append([wline("witness", s, lim, mid, path, idx, x, e)])
         if k % (4 if quick else 2) == 0:
             seqs.append([wline("calcwit", s, lim, mid, path, idx, x, e)])
+    # the same identity in the same epoch with different message ids / signals, consecutively in one process: each line's values are a
+    # function of that line alone (a memo keyed on fewer fields than the formula reads shows only in such histories)
+    for k in range(6 if quick else 60):
+        s, e = rng.choice(FB + [rand_fr(rng)] * 3), rng.choice(FB + [rand_fr(rng)] * 3)
+        path = [rand_fr(rng) for _ in range(20)]
+        idx = [rng.getrandbits(1) for _ in range(20)]
+        seq = []
+        for mid in rng.sample(range(0, 50), 3):
+            seq.append(wline(rng.choice(["witness", "witness", "calcwit"]), s, 100, mid, path, idx, rng.choice([1, rand_fr(rng)]), e))
+        seq.append(wline("witness", s, 100, 7, path, idx, 5, (e + 1) % P))          # other epoch, same identity
+        seq.append(wline("witness", (s + 1) % P, 100, 7, path, idx, 5, e))          # other identity, same epoch
+        seq.append(wline("witness", s, 101, 7, path, idx, 5, e))                    # other limit
+        seqs.append(seq)
     # all 2^k direction patterns on a short prefix (the remaining levels fixed)
     base = [rand_fr(rng) for _ in range(20)]
     for pat in range(0, 1 << (5 if quick else 10)):
@@ -68,5 +81,5 @@ def check(run):
                                      (m.secret, m.index, m.limit, [f"rln delete {hex(m.index)}"])]:                     # leaf deleted
             rq = rlngen.prove_request(sec, idx_, lim, min(M["mid"], lim - 1), M["ext"], M["signal"])
             seqs.append(M["setup"] + pre + [f"rln prove_req {hx(rq)}"])
-    run.rules.append("witnesses with boundary / random field values in every position, all-zero / all-one / one-hot / random direction patterns, all 2^k patterns on a prefix, through proof_values_from_witness (formulas vs the ideal path fold), calculate_rln_witness()[0..6] and bytes 128..288 of generate_rln_proof (registered members and requests that do not match the stored leaf: other limit, other secret, neighbouring position, replaced / deleted leaf); distinct = distinct witness")
+    run.rules.append("witnesses with boundary / random field values in every position, all-zero / all-one / one-hot / random direction patterns, all 2^k patterns on a prefix, consecutive lines that share all but one field (same identity and epoch, other message id / epoch / identity / limit), through proof_values_from_witness (formulas vs the ideal path fold), calculate_rln_witness()[0..6] and bytes 128..288 of generate_rln_proof (registered members and requests that do not match the stored leaf: other limit, other secret, neighbouring position, replaced / deleted leaf); distinct = distinct witness")
     run.differential("proof-values", seqs, canon=canon, shrink=False)
